@@ -105,6 +105,16 @@ else:
             fcntl.flock(file.fileno(), _flags)
         except (IOError, OSError) as err:
             raise LockError("Couldn't lock {0}, error: {1}".format(file.name, err))
+        # The previous owner may have removed the lock file (and another
+        # process re-created it) between our open() and flock(). A lock on
+        # a file that is no longer reachable by its name excludes nobody.
+        try:
+            path_stat = os.stat(file.name)
+            file_stat = os.fstat(file.fileno())
+        except (IOError, OSError) as err:
+            raise LockError("Couldn't lock {0}, error: {1}".format(file.name, err))
+        if (path_stat.st_dev, path_stat.st_ino) != (file_stat.st_dev, file_stat.st_ino):
+            raise LockError("Couldn't lock {0}, lock file was replaced".format(file.name))
 
     def _unlock_file(file):
         # File is automatically unlocked on close
